@@ -168,6 +168,17 @@ Proof.
   - apply chk_unmatched_sound.
 Qed.
 
+(** The flat-expansion checker run on the implementation's [Calibrations::expand]: when the
+    specified body of the matching calibration needs no further expansion, acceptance means the
+    implementation returned exactly the specified substitution (parameters paired with the
+    calibration's variables by position), which is the specified expansion of the instruction. *)
+Theorem C17_flat_checker_sound :
+  forall (cs : cals) (i : instr) (o : option (list instr)) (body : list instr) (src : calsrc),
+    chk_flat_spec cs i o = true ->
+    instantiate_spec cs i = Some (body, src) -> (forall j, In j body -> instantiate_spec cs j = None) ->
+    o = Some body /\ Expands (instantiate_spec cs) [] i o.
+Proof. exact chk_flat_spec_sound. Qed.
+
 (** Non-vacuity: [DEFCAL A(%t) q: B(%t) q; DECLARE mem BIT[1]; FENCE q] and [DEFCAL B(%s) r: DELAY r %s]
     applied to [A(2) 1; NOP] (names: A=1 B=2 t=3 q=4 s=5 r=6 mem=7). *)
 Example C17_nonvacuous :
